@@ -423,7 +423,7 @@ impl<'a> G<'a> {
             for _ in 0..n {
                 let d = *self.r.pick(&[
                     ("A", "1"), ("B", "0"), ("C", "7"), ("E", ""), ("A", "0x10"), ("ID(x)", "x"), ("PAR", "(1 || 0)"), ("U2", "A"),
-                    ("A", "1"), ("B", "1"), ("C", "0"), ("3", "1"), ("A", "$"), ("F(", "1"), ("A B", "C"),
+                    ("A", "1"), ("B", "1"), ("C", "0"), ("3", "1"), ("A", "$"), ("F(", "1"), ("A B", "C"), ("A", "1\\n"),
                 ]);
                 defs.push((d.0.to_string(), d.1.to_string()));
                 self.kinds.add("api-define");
